@@ -30,6 +30,16 @@ def ref_fn(r):
     return out
 
 
+def key_scale(k, rmax, s_curv):
+    if k in ALGEBRAIC:
+        return max(rmax, 1e-300)
+    if k == 'st_Gamma_udd4':
+        return max(rmax, 1e-3)
+    if k == 'Kretschmann':
+        return max(rmax, s_curv ** 2)
+    return max(rmax, s_curv)
+
+
 def case(task):
     desc, p, with_T, vacuum, Ns, seed = task
     res = {'task': [list(desc), p, with_T, vacuum, list(Ns)], 'err': {},
@@ -48,14 +58,7 @@ def case(task):
                     val = rel[k]
                     fwd[k] = np.array(val, copy=True)
                     rmax = float(np.abs(ref[k]).max())
-                    if k in ALGEBRAIC:
-                        sc = max(rmax, 1e-300)
-                    elif k == 'st_Gamma_udd4':
-                        sc = max(rmax, 1e-3)
-                    elif k == 'Kretschmann':
-                        sc = max(rmax, s_curv ** 2)
-                    else:
-                        sc = max(rmax, s_curv)
+                    sc = key_scale(k, rmax, s_curv)
                     res['err'].setdefault(k, []).append(
                         gc.err(val, ref[k], sc))
                     res['scale'][k] = sc
@@ -83,6 +86,18 @@ def case(task):
                     res['lamattr'] = gc.lambda_attribute_dependence(
                         desc, seed, p, N, KEYS, fwd, with_T=with_T,
                         vacuum=vacuum)
+        def ref_scale(N):
+            rel, st, (X, Y, Z), inp = gc.build_core(
+                desc, seed, p, N, with_T=with_T, vacuum=vacuum)
+            ref = gc.ref_chunks(st, fields.T0, X, Y, Z, ref_fn)
+            s_curv = float(np.abs(ref['_dGamma']).max()
+                           + np.abs(ref['st_Gamma_udd4']).max() ** 2)
+            return {k: (ref[k], key_scale(k, float(np.abs(ref[k]).max()),
+                                          s_curv)) for k in KEYS}
+        # a variant that differs from the forward values is judged against
+        # the reference like them (grcommon.alt_errors)
+        gc.alt_errors(res, desc, seed, p, Ns, KEYS, ref_scale,
+                      with_T=with_T, vacuum=vacuum)
     except Exception as ex:      # noqa: BLE001
         import traceback
         res['raised'] = traceback.format_exc()[-600:]
@@ -139,43 +154,49 @@ def judge(run, task, res):
         run.violation(f"C04:raised:{desc[0]}", f"{tag}: {res['raised']}",
                       {'task': res['task']})
         return
-    for k, d in res.get('lamattr', {}).items():
-        run.count('lambda_attribute_comparisons')
-        if not d <= 1e-12:
-            run.violation(f"C04:Lambda-as-attribute:{k}",
-                          f"{tag}: {k} differs by {d:.2e} (relative) when "
-                          "the cosmological constant is assigned to "
-                          "rel.Lambda after construction instead of passed "
-                          "as a keyword", {'task': res['task'], 'key': k})
-    for k, d in res.get('style', {}).items():
-        run.count('input_style_comparisons')
-        if not d <= 1e-9:
-            run.violation(f"C04:input-style:{k}",
-                          f"{tag}: {k} differs by {d:.2e} (relative) when "
-                          "metric, curvature and shift are given by "
-                          "components instead of arrays (fresh instance, "
-                          "reverse request order)",
-                          {'task': res['task'], 'key': k})
-    for k, d in res.get('order', {}).items():
-        run.count('order_comparisons')
-        if not d <= 1e-9:
-            run.violation(f"C04:order-dependent:{k}",
-                          f"{tag}: {k} differs by {d:.2e} (relative) when "
-                          "the same keys are requested in reverse order on "
-                          "a fresh instance", {'task': res['task'], 'key': k})
     exact = desc[0] == 'ds'
+
+    def judge_err(k, e_lo, e_hi):
+        if k in ALGEBRAIC or exact:
+            return (e_lo <= 1e-9 and e_hi <= 1e-9,
+                    f"algebraic/exact-stencil key: rel err {e_lo:.2e},"
+                    f"{e_hi:.2e}")
+        cap = gc.CAPS[p] * (30 if desc[0] in ('schw', 'scaled', 'ads')
+                            else 1)
+        return gc.converges(e_lo, e_hi, p, cap=cap)
+
+    for kind, sig, limit, text in (
+            ('lamattr', 'Lambda-as-attribute', 1e-12,
+             "the cosmological constant is assigned to rel.Lambda after "
+             "construction instead of passed as a keyword"),
+            ('style', 'input-style', 1e-9,
+             "metric, curvature and shift are given by components instead "
+             "of arrays (fresh instance, reverse request order)"),
+            ('order', 'order-dependent', 1e-9,
+             "the same keys are requested in reverse order on a fresh "
+             "instance")):
+        for k, d in res.get(kind, {}).items():
+            run.count({'lamattr': 'lambda_attribute_comparisons',
+                       'style': 'input_style_comparisons',
+                       'order': 'order_comparisons'}[kind])
+            if d <= limit:
+                continue
+            ok, why = gc.alt_verdict(res, kind, k, judge_err)
+            if ok:
+                run.count('variant_differs_but_converges')
+                continue
+            run.violation(f"C04:{sig}:{k}",
+                          f"{tag}: {k} differs by {d:.2e} (relative) when "
+                          f"{text}, and the variant does not converge to "
+                          f"the 4D definition either ({why})",
+                          {'task': res['task'], 'key': k})
     for k, (e_lo, e_hi) in res['err'].items():
         nontrivial = res['refmax'][k] > 1e-6
         run.seen(desc, p, with_T, vacuum, k, nontrivial)
         if nontrivial:
             run.count('nontrivial_comparisons')
         run.count('comparisons')
-        if k in ALGEBRAIC or exact:
-            ok = e_lo <= 1e-9 and e_hi <= 1e-9
-            why = f"algebraic/exact-stencil key: rel err {e_lo:.2e},{e_hi:.2e}"
-        else:
-            cap = gc.CAPS[p] * (30 if desc[0] in ('schw', 'scaled', 'ads') else 1)
-            ok, why = gc.converges(e_lo, e_hi, p, cap=cap)
+        ok, why = judge_err(k, e_lo, e_hi)
         if not ok:
             run.violation(f"C04:key={k}:{desc[0]}",
                           f"{tag}: {k} does not converge to the 4D "
